@@ -316,12 +316,17 @@ def tasks(tier, seed):
             if variant == 0 and sh in ((1, (1,)), (2, (1,))) or (tier != "quick" and variant == 0 and sh[0] in (1, 2) and len(sh[1]) == 1):
                 ts.append((task_remove, (sh, variant, ks, U, True, tier)))
     ts += [(task_order, (name,)) for name in ORDER_CASES]
+    from . import kinds
+    ts += [(kinds.task_kinds, ("C05", op)) for op in kinds.OPS["C05"][1]]
     return ts
 
 
 def replay(o):
     """Concrete replay: draws the symbolic control points from the witness point (or small integers)."""
     w = o["witness"]
+    if w["kind"] == "kinds":
+        from . import kinds
+        return kinds.replay(o)
     if w["kind"] == "c05.order":
         r = task_order(w["case"])[0]
         return r["status"] == FAILED, "same result in every history; interpolation at the remaining knots", r["detail"]
